@@ -314,7 +314,8 @@ class Field(Operator):
                 new_shape[self._domain.axes[ind][0]:
                           self._domain.axes[ind][-1]+1] = wgt.shape
                 wgt = wgt.reshape(new_shape)
-                aout *= wgt**power
+                # not in place: integer fields get float volume factors
+                aout = aout * wgt**power
         fct = fct**power
         if fct != 1.:
             aout *= fct
